@@ -136,6 +136,77 @@ def run(ctx):
                     cases.append(("JDesCompact97 %s %s %s %s %s %s" % (J.c_table(rows), c_hex(tok), J.c_keysrc(pub_key), c_opt(None if safe else pl, c_hex),
                                                                       J.c_algs([alg]), J.c_compact_result(r)),
                                   {"fn": "deserialize_compact97", "what": alg}))
+        # ---------- reference-signed tokens over HISTORIES: batches (extract all, validate all, both
+        # orders) and key callables that verify OTHER reference-signed tokens before returning the key;
+        # each reference token must verify to its own payload (compact and rfc7797 compact)
+        pool = []
+        for alg, kn in (("HS256", "oct32"), ("ES256", "p256"), ("EdDSA", "ed25519"), ("RS256", "rsa"), ("HS384", "oct64"), ("ES384", "p384")):
+            prv_jwk, pub_jwk = jwks(kn)
+            pub_key = J.pubkey_of(K[kn])
+            for i_, pl in enumerate((b"ref-payload-" + alg.encode(), b"second-" + alg.encode())):
+                h = {"alg": alg, "kid": "%s-%d" % (kn, i_)}
+                sp = REF.header_spellings(h, rng)
+                tok = REF.sign_compact(alg, prv_jwk, sp[(i_ * 3 + 1) % len(sp)], pl)
+                h97 = {"alg": alg, "b64": False, "crit": ["b64"]}
+                tok97 = REF.sign_compact(alg, prv_jwk, REF.header_spellings(h97, rng)[0], b"u97_" + alg.encode() + b"%d" % i_, b64=False)
+                val = REF.sign_flattened(alg, prv_jwk, sp[0], None, pl)
+                pool.append({"tok": tok, "tok97": tok97, "val": val, "alg": alg, "key": pub_key, "pl": pl, "pl97": b"u97_" + alg.encode() + b"%d" % i_, "h": h})
+        rec.take()
+        for order in ("forward", "reverse", "shuffled"):
+            batch = list(pool)
+            if order == "shuffled":
+                rng.shuffle(batch)
+            objs = [call(jws.extract_compact, t["tok"].encode()) for t in batch]
+            seq = list(range(len(batch)))
+            if order == "reverse":
+                seq.reverse()
+            for i_ in seq:
+                t, o = batch[i_], objs[i_]
+                note("history:batch-%s" % order)
+                ctx.note_case(("batch", order, t["tok"]))
+                v = call(jws.validate_compact, o[1], t["key"], [t["alg"]]) if o[0] == "ok" else o
+                rec.take()
+                segs_ok = o[0] == "ok" and [o[1].segments.get(x) for x in ("header", "payload", "signature")] == t["tok"].encode().split(b".")
+                if v != ("ok", True) or o[1].payload != t["pl"] or o[1].protected != t["h"] or not segs_ok:
+                    ctx.violation({"kind": "history-batch", "order": order},
+                                  "extract_compact on a batch of reference-signed tokens, then validate_compact (%s): %r for token %d (payload %r, own segments intact: %s)" % (
+                                      order, v[1], i_, getattr(o[1], "payload", None), segs_ok), {"dir": "reference->joserfc", "token": t["tok"], "alg": t["alg"]})
+        for ia, A in enumerate(pool):
+            for ib, B in enumerate(pool):
+                if ia == ib or (ctx.quick and (ia * 5 + ib) % 3):
+                    continue
+                inner = {}
+
+                def keyf(obj, A=A, B=B, inner=inner):
+                    inner["c"] = call(jws.deserialize_compact, B["tok"], B["key"], [B["alg"]])
+                    inner["u"] = call(r97.deserialize_compact, B["tok97"], B["key"], None, [B["alg"]])
+                    inner["j"] = call(jws.deserialize_json, copy.deepcopy(B["val"]), B["key"], [B["alg"]])
+                    return A["key"]
+                note("history:nested-callable")
+                ctx.note_case(("nested", A["tok"], B["tok"]))
+                rp = {"dir": "reference->joserfc", "token": A["tok"], "other": B["tok"], "alg": A["alg"]}
+                rec.take()
+                r = call(jws.deserialize_compact, A["tok"], keyf, [A["alg"]])
+                rows, _ = rec.take()
+                cases.append(("JDesCompact %s %s %s %s %s" % (J.c_table(rows), c_hex(A["tok"].encode()), J.c_keysrc(A["key"]), J.c_algs([A["alg"]]), J.c_compact_result(r)),
+                              {"fn": "deserialize_compact", "what": "nested-%s" % A["alg"]}))
+                if r[0] != "ok" or r[1].payload != A["pl"] or r[1].protected != A["h"]:
+                    ctx.violation({"kind": "history-nested", "ser": "compact"}, "a reference-signed token verified through a key callable that verifies OTHER tokens: %r (expected payload %r)" % (
+                        r[1] if r[0] != "ok" else r[1].payload, A["pl"]), rp)
+                r7 = call(r97.deserialize_compact, A["tok97"], keyf, None, [A["alg"]])
+                rec.take()
+                if r7[0] != "ok" or r7[1].payload != A["pl97"]:
+                    ctx.violation({"kind": "history-nested", "ser": "compact-b64false"}, "an RFC 7797 reference token verified through a key callable that verifies OTHER tokens: %r" % (
+                        r7[1] if r7[0] != "ok" else r7[1].payload,), rp)
+                rj = call(jws.deserialize_json, copy.deepcopy(A["val"]), keyf, [A["alg"]])
+                rec.take()
+                if rj[0] != "ok" or rj[1].payload != A["pl"]:
+                    ctx.violation({"kind": "history-nested", "ser": "flat"}, "a reference-signed flattened JWS verified through such a callable: %r" % (rj[1],), rp)
+                for nm in ("c", "u", "j"):
+                    want = B["pl97"] if nm == "u" else B["pl"]
+                    if inner.get(nm, ("err", None))[0] != "ok" or inner[nm][1].payload != want:
+                        ctx.violation({"kind": "history-nested-inner"}, "the nested verification (%s) of the other token failed: %r" % (nm, inner.get(nm)), rp)
+
         # ---------- the emitted segments are exactly BASE64URL(UTF8(JSON(the protected header given)))
         # every producing entry point x (protected only / unprotected only / both / kid in either) x b64
         def canon(hd):
